@@ -1,7 +1,8 @@
 """G-file: layout variants of a program text that do not change its token sequence."""
 
 WS = [" ", "\n", "\n    ", "\t", "\r\n", "  ", "\n\n"]
-COMMENTS = ["/* c */", "// note\n", "/* éè \U0001F388 */", "//ü\n", "/* multi\nline */", "//\r\n"]
+COMMENTS = ["/* c */", "// note\n", "/* éè \U0001F388 */", "//ü\n", "/* multi\nline */", "//\r\n",
+            "/* see https://example.org/x */", "/* a /* b */", "// has /* inside\n", "/* // */", "/***/", "/** doc **/", "// */ x\n", "/*\n// line\n*/"]
 
 
 def relayout(rng, text, crlf=False, comments=True, final_newline=None, comment_rate=0.15):
